@@ -34,14 +34,14 @@ Section Decode.
   Variable p : parser pd.     (* nested PlutusData::deserialize (one fuel level down) *)
 
   (* PlutusList::deserialize *)
-  Definition dec_plist : parser (bool * bool * list pd) := dec_set p BrkErr false.
+  Definition dec_plist : parser (bool * bool * list pd) := dec_set p false.
 
   Definition dec_constr : parser pdk := fun bs =>
     let* '(t, r) := rd_tag bs in
     if t =? 102 then
       let* '(len, r1) := rd_array r in
-      (* CBORReadLen::read_elems(2): a definite length below 2 is an error; a larger one is accepted *)
-      if (match len with Arg n => n <? 2 | Indef => false end) then Err else
+      (* CBORReadLen::read_elems(2) ... finish(): a definite length must be exactly 2 (/repo 7266590) *)
+      if (match len with Arg n => negb (n =? 2) | Indef => false end) then Err else
       let* '(alt, r2) := rd_uint r1 in
       let* '((tg, df, xs), r3) := dec_plist r2 in
       let* r4 := close_len len r3 in
@@ -57,7 +57,7 @@ Section Decode.
 
   Definition dec_pmap : parser pdk := fun bs =>
     let* '(len, r) := rd_map bs in
-    let* '(kvs, r') := dec_elems dec_kv BrkErr (S (length r)) len 0 r in
+    let* '(kvs, r') := dec_elems dec_kv (S (length r)) len 0 r in
     Ok (KMap kvs, r').
 
   Definition dec_plist_k : parser pdk := fun bs =>
